@@ -172,6 +172,8 @@ def run_cmp(case):
             if list(d.labels[len(l) - len(o_l):]) != o_l:
                 raise Violation("relativize", "derelativize did not append the origin's labels", "roundtrip-origin")
             classes.add("under-origin")
+            if not o_l or o_l[-1] != b"":
+                classes.add("under-relative-origin")
             if list(n.labels[len(l) - len(o_l):]) != o_l:
                 classes.add("under-origin-case-variant")
         else:
@@ -240,7 +242,19 @@ def cmp_cases(draw):
         l0 = bytearray(names[0][0] or b"a")
         l0[-1] = (l0[-1] + draw(st.sampled_from([1, 32, 224, 255]))) % 256
         names[1] = [bytes(l0)] + names[0][1:]
-    if draw(st.booleans()):
+    ok_ = draw(st.integers(0, 9))
+    if ok_ == 0:
+        # the origin may itself be relative (a relative suffix of a relative name) or empty
+        src = [n for n in names if n and n[-1] != b""]
+        if src:
+            s = draw(st.sampled_from(src))
+            cut = draw(st.integers(0, len(s)))
+            origin = [G.flip_case(draw, l) for l in s[cut:]]
+        else:
+            origin = []
+    elif ok_ == 1:
+        origin = []
+    elif draw(st.booleans()):
         # origin = a suffix of one of the names (possibly with different case)
         src = [n for n in names if n and n[-1] == b""]
         if src:
@@ -382,7 +396,7 @@ def parts(tier):
     return [
         Part("cmp", run_cmp, strategy=cmp_cases(), n={"quick": 12000, "thorough": 400000},
              require={"equal-up-to-case": 300, "rel:SUBDOMAIN": 300, "rel:COMMONANCESTOR": 300, "rel:NONE": 100,
-                      "under-origin": 300, "under-origin-case-variant": 20, "namedict-match": 100, "dot-twins-unequal": 300}),
+                      "under-origin": 300, "under-origin-case-variant": 20, "namedict-match": 100, "dot-twins-unequal": 300, "under-relative-origin": 100}),
         Part("succ", run_succ, strategy=succ_cases(), n={"quick": 12000, "thorough": 400000},
              require={"succ-modified-label": 100, "pred-modified-label": 100, "succ-wraps": 5, "pred-of-origin": 50}),
         Part("succ-table", run_succ, cases=succ_table, shards={"quick": 8, "thorough": 8}),
